@@ -11,8 +11,8 @@ TECH_VK = TECH_V + " + Kani (CBMC) harnesses on the real crate"
 
 CLAIMS = {
     "C01": dict(
-        text="Verus proves, for every queue content, bound and cancellation pattern, the contracts of Simulation::{step_to_next_bounded, step, step_until, step_until_unchecked, process, run, time}: time never decreases, a step moves to the earliest live deadline and hands exactly the live actions due then to the executor before running it, pending actions stay strictly later than the time (units sim, sched, pq).",
-        note="assumes A-exec (the executor runs what was spawned at the current time), the PriorityQueue contract proved in unit pq, tai_time exact; process_event/process_query (async block construction) are not under contract; sequentialised (lock elision), concurrent schedulers are covered by the monitor pass under C08",
+        text="Verus proves, for every queue content, bound and cancellation pattern, the contracts of Simulation::{step_to_next_bounded, step, step_until, step_until_unchecked, process, process_event, process_query, run, time} and SimInit::init: time never decreases, a step moves to the earliest live deadline and hands exactly the live actions due then to the executor before running it, pending actions stay strictly later than the time (units sim, sched, pq).",
+        note="assumes A-exec (the executor runs what was spawned at the current time), the PriorityQueue contract proved in unit pq, tai_time exact; the async send futures built by process_event/process_query are opaque (R8); sequentialised (lock elision), concurrent schedulers are covered by the monitor pass under C08",
         ref="DESIGN.md §5 C01", tech=TECH_V + "; bounded executable stand-in (xsim) as counterexample generator and fallback, labelled bounded"),
     "C06": dict(
         text="Verus proves that Simulation::run maps UnprocessedMessages to Deadlock exactly when an observed mailbox is non-empty, listing exactly the non-empty observers with name and size in registration order, and to MessageLoss otherwise, for every observer vector and executor result (unit sim); and that every model added through SimInit::add_model or BuildContext::add_submodel, to any depth, gets exactly one mailbox observer registered under its qualified name (unit reg). Kani proves Queue::len (the observed size) exact when quiescent.",
@@ -36,7 +36,7 @@ CLAIMS = {
         ref="DESIGN.md §5 C10", tech=TECH_VK + "; bounded executable stand-in (xsim) as counterexample generator"),
     "C11": dict(
         text="Verus proves the mapping of every ExecutorError value by Simulation::run (Timeout, Panic with model name and payload, NoRecipient for SendError payloads), that every fatal error sets the terminated flag, and that step/step_until/process on a terminated simulation return Terminated without moving the time or entering the executor (unit sim); the ModelId given to each model task indexes that model's own qualified name (unit reg).",
-        note="that the executors produce the right ExecutorError (catch_unwind, CURRENT_MODEL_ID, timeout thread) is not decided; process_event/process_query bodies not under contract",
+        note="that the executors produce the right ExecutorError (catch_unwind, CURRENT_MODEL_ID, timeout thread) is not decided",
         ref="DESIGN.md §5 C11", tech=TECH_V + "; bounded executable stand-in (xsim) as counterexample generator and fallback, labelled bounded"),
     "C12": dict(
         text="Kani proves, per capacity (1,2 quick; 1..5 thorough) and for every representation-invariant-satisfying state (any sequence count, fill level, open/closed) - i.e. for histories of any length - the sequential contracts of Queue::{push,pop + MessageBorrow::drop,close,len,next_queue_pos}: never more than capacity messages, FIFO, each message exactly once, len exact, Full only when full, after close pushes fail and accepted messages stay receivable. The concurrency half of the property (linearizability under multi-producer interleavings, no lost wake-ups in channel.rs) is NOT decided.",
@@ -51,8 +51,8 @@ CLAIMS = {
         note="sequentialised (Arc/Mutex/AtomicBool elided; try_lock assumed uncontended); vstd VecDeque specs; __try_fold and the sender future not under contract",
         ref="DESIGN.md §5 C17", tech=TECH_V),
     "C18": dict(
-        text="Verus proves that a step to a new time t calls synchronize(t) exactly once after the time write and before Executor::run (a precondition of run), that OutOfSync is returned exactly when the reported lag exceeds the configured tolerance and then the executor is not entered, and that step_until's final jump synchronises on the target (unit sim).",
-        note="SimInit::init not under contract; the clock is only reachable through Simulation (private field); step_until through several times: each new time synchronised exactly once (strictly increasing trace)",
+        text="Verus proves that a step to a new time t calls synchronize(t) exactly once after the time write and before Executor::run (a precondition of run), that OutOfSync is returned exactly when the reported lag exceeds the configured tolerance and then the executor is not entered, that step_until's final jump synchronises on the target, and that SimInit::init synchronises exactly once on the start time before the first executor run (unit sim).",
+        note="the clock is only reachable through Simulation (private field); step_until through several times: each new time synchronised exactly once (strictly increasing trace)",
         ref="DESIGN.md §5 C18", tech=TECH_V + "; bounded executable stand-in (xsim) as counterexample generator and fallback, labelled bounded"),
     "C20": dict(
         text="Verus proves the whole of util/indexed_priority_queue.rs (39 functions: heap order on (key, epoch), slab/heap cross-indexing, extract only through the matching epoch) and util/priority_queue.rs (stable minimum extraction) for every history, generic key type.",
